@@ -27,7 +27,7 @@ RULE = ("grids of 1-12 combinations, repetitions 1-6 (>=2 for variance modes), a
 COMPONENTS = {"real": ["ECAgent.Batching.grid_search", "_run_model_for_search", "_score_model_for_search", "ParameterList",
                        "statistics.mean/variance as called by the package", "ECAgent.Core.Model / SystemManager"],
               "stub": ["multiprocessing.Pool -> simkit.simpool.SimPool", "models and score function are harness workloads"]}
-PROBES = ["mode_0", "mode_1", "mode_2", "mode_3", "mode_4", "mode_5", "mode_6", "mode_7", "tie_for_best",
+PROBES = ["exact_rational_scores", "mode_0", "mode_1", "mode_2", "mode_3", "mode_4", "mode_5", "mode_6", "mode_7", "tie_for_best",
           "negative_only", "single_combination", "beyond_maxsize", "optimum_first", "optimum_middle", "optimum_last",
           "parallel_reordered", "float_scores", "numpy_integer_scores", "parameter_named_like_a_batching_argument", "model_with_own_timestep_attribute", "one_shot_iterable_as_a_later_parameter",
           "parameterlist_searched_replaced_searched_again"]
@@ -56,6 +56,9 @@ def gen_score(rng, style):
         return -MAXSIZE - rng.randint(0, 2 ** 66)
     if style == "float":
         return [rng.randint(-2 ** 12, 2 ** 12), 8]
+    if style == "fraction":
+        # an exact rational score (fractions.Fraction: a ratio of two counts) that no double represents
+        return {"frac": [rng.randint(-60, 60), rng.choice([3, 7, 9, 11, 3 * 2 ** 60 + 1])]}
     return rng.randint(-1000, 1000)
 
 
@@ -86,6 +89,8 @@ def generate(rng, tier):
     mode = rng.randrange(8)
     reps = rng.randint(2 if mode >= 6 else 1, 8 if tier == "thorough" else 6)
     style = rng.choice(["small", "small", "neg", "big", "bigpos", "bigneg", "float", "mid", "mid"])
+    if rng.random() < 0.1:
+        style = "fraction"
     scores = [[gen_score(rng, style) for _ in range(reps)] for _ in range(size)]
     r = rng.random()
     if r < 0.5 and size >= 2:
@@ -117,17 +122,21 @@ def generate(rng, tier):
 
 
 def to_frac(v):
+    if isinstance(v, dict):
+        return Fraction(v["frac"][0], v["frac"][1])
     return Fraction(v[0], v[1]) if isinstance(v, list) else Fraction(v)
 
 
 def to_val(v):
+    if isinstance(v, dict):
+        return Fraction(v["frac"][0], v["frac"][1])
     return v[0] / v[1] if isinstance(v, list) else v
 
 
 def aggregate(rec_specs, mode):
     """Exact aggregate and the value the package should report for it."""
     fr = [to_frac(v) for v in rec_specs]
-    ints = all(not isinstance(v, list) for v in rec_specs)
+    ints = all(not isinstance(v, (list, dict)) for v in rec_specs)
     n = len(fr)
     if mode in (0, 1):
         x = min(fr) if mode == 0 else max(fr)
@@ -138,7 +147,9 @@ def aggregate(rec_specs, mode):
     else:
         mean = sum(fr) / n
         x = sum((v - mean) ** 2 for v in fr) / (n - 1)
-    if ints and x.denominator == 1:
+    if any(isinstance(v, dict) for v in rec_specs):
+        rep = x             # exact rational scores aggregate exactly (min / max / sum / statistics.mean / variance all do)
+    elif ints and x.denominator == 1:
         rep = int(x)
     else:
         rep = float(x)
@@ -162,6 +173,8 @@ def run_search(ctx, sc, processes, label):
              "shadow_timestep": sc.get("shadow_timestep"), "nested_batches": sc.get("nested_batches")})
     if sc.get("shadow_timestep") is not None:
         ctx.probe("model_with_own_timestep_attribute")
+    if any(isinstance(v, dict) for row in sc["scores"] for v in row):
+        ctx.probe("exact_rational_scores")
     if any(n_ in W.SPECIAL_NAMES for n_ in names):
         ctx.probe("parameter_named_like_a_batching_argument")
     if any(s_["kind"] in ("iter", "gen") for _, s_ in sc["grid"]):
@@ -334,8 +347,11 @@ def _real_one(sc):
         ctx.check(v1[0] == vp[0] and v1[1] == vp[1], "real-pool:serial-vs-parallel", "outcomes differ")
         # the program's state changes (another score table) and the search is repeated with the same process count:
         # workers must see the state of THIS call, not of an earlier one
-        table2 = {s: [(v if isinstance(v, list) else v + 1000) if not isinstance(v, list) else [v[0] + 8000, v[1]] for v in row]
-                  for s, row in table.items()}
+        def shifted(v):
+            if isinstance(v, dict):
+                return {"frac": [v["frac"][0] + 1000 * v["frac"][1], v["frac"][1]]}
+            return [v[0] + 8000, v[1]] if isinstance(v, list) else v + 1000
+        table2 = {s: [shifted(v) for v in row] for s, row in table.items()}
         cfg2 = dict(cfg, scores=table2)
         W.reset(cfg2)
         v1b = B.grid_search(W.SearchModel, dict(raw), W.score_fn, processes=1, **kw)
